@@ -440,6 +440,21 @@ func genPairs(r *rand.Rand, big bool) []fpair {
 		fp.Tag = tag
 		out = append(out, fp)
 	}
+	// sometimes: one modified text file moves to another path (delete + add; a rename for Tree.Patch's rename detection)
+	if r.Intn(7) == 0 {
+		for i, fp := range out {
+			if fp.kind() == "modify" && fp.Old.Mode != "120000" && !isBin(fp.Old.Content) && !isBin(fp.New.Content) && len(fp.Old.Content) > 40 && !used["moved/"+fp.Path] {
+				used["moved/"+fp.Path] = true
+				nw := fp.New
+				if r.Intn(2) == 0 {
+					nw = &gen.File{Mode: fp.Old.Mode, Content: fp.Old.Content} // exact rename
+				}
+				out[i] = fpair{Path: fp.Path, Old: fp.Old, Tag: "rename-src"}
+				out = append(out, fpair{Path: "moved/" + fp.Path, New: nw, Tag: "rename-dst"})
+				break
+			}
+		}
+	}
 	// rarely: a file replaced by a directory (or vice versa)
 	if r.Intn(25) == 0 {
 		p := "swap"
